@@ -456,9 +456,8 @@ func (g *G) expr2(t Ty, depth int) *Expr {
 			l, r := g.Expr(TFloat, depth-1), g.Expr(TFloat, depth-1)
 			if g.R.Intn(3) == 0 {
 				r = g.Expr(TInt, depth-1) // int/float coercion
-			}
-			if g.R.Intn(5) == 0 {
-				l = g.Expr(TInt, depth-1)
+			} else if g.R.Intn(5) == 0 {
+				l = g.Expr(TInt, depth-1) // never both: int op int would be an int passing for a float
 			}
 			return &Expr{K: "bin", Op: op, A: []*Expr{l, r}}
 		case 3:
